@@ -21,7 +21,7 @@ CHECKS = {
     "C04": ("other", "contract-based deductive verification with the ufunc as an uninterpreted function + bounded numpy-per-row stand-in",
             "Proved for every ufunc at once: operand classification, operand order, shape guard (refusal iff row lengths differ), result assembly, dtype handed to the column broadcast, operands not written; _raw_broadcast proved. numpy's result dtype table and the dtype matrix are bounded.", "0, 20, 11/C04"),
     "C05": ("other", "contract of _reduce against the assumed reduceat contract + wrapper dispatch + bounded numpy-per-row stand-in",
-            "Proved for all row-length vectors: _reduce (trailing-empty-row trimming, reduceat index bounds, identity for empty rows, keepdims, axis=None) for representatives add / maximum / logical_and with the fold uninterpreted; the reduction wrapper and named reductions' dispatch; argmax / argmin (_arg_extremum: first column equal to the row extremum, 0 for rows without one; np.unique and nonzero contracts). mean and the dtype matrix are bounded.", "0, 20, 11/C05"),
+            "Proved for all row-length vectors: _reduce (trailing-empty-row trimming, reduceat index bounds, identity for empty rows, keepdims, axis=None) for representatives add / maximum / logical_and with the fold uninterpreted; the reduction wrapper and named reductions' dispatch; argmax / argmin (_arg_extremum: first column equal to the row extremum, 0 for rows without one; np.unique and nonzero contracts); mean(axis) = the callee's sum(axis) of an array holding the same cells divided by the row length / col_counts (float division uninterpreted). The dtype matrix and float values are bounded.", "0, 20, 11/C05"),
     "C06": ("other", "contracts over the abstract rows for view receivers + materialisation frame + bounded derived-vs-fresh comparison",
             "Proved: row subset of views, column-step compounding, integer column on strided views, materialisation (rows preserved, fresh buffer, source not written), lazy __getitem__ dispatch; the mechanised compositions of C02 / C03 (a 2-D slice selection read back cell by cell, and written through, equals list indexing), also for receivers that are themselves lazy row or column selections (column steps compound). Representation independence under every probe (a newly derived array vs a fresh one) is bounded.", "0, 20, 11/C06"),
     "C07": ("other", "contracts (prefix-sum telescoping, shifted-prefix-sum lemma) + bounded numpy-per-row stand-in",
@@ -29,7 +29,7 @@ CHECKS = {
     "C08": ("other", "contracts on structural functions + bounded stand-in",
             "Proved: concatenate(axis=0) for 2 and 3 operands, zeros/ones/empty_like, where, nonzero, ragged_slice window arithmetic, unravel_multi_index, _raw_broadcast (mask broadcast), subset (row r keeps exactly its True-masked cells in order; fold-of-booleans = rank difference and prefix-sum-of-counts lemmas). concatenate(axis=1) (a Python loop over rows) and the padded matrix are bounded.", "0, 20, 11/C08"),
     "C09": ("other", "contracts (col_counts by three inductions, dtype dispatch) + bounded stand-in with dtype extremes",
-            "Proved: col_counts[j] = number of rows longer than j, for all row-length vectors; sum(axis=0) accumulator / dtype / index dispatch; the column-sum VALUES of integer arrays (result[k] = sum of the k-th cells of the rows that have one, two inductions over the add.at accumulation, integers mathematical); get_column_values. Float / bool column sums, mean(axis=0) are bounded.", "0, 20, 11/C09"),
+            "Proved: col_counts[j] = number of rows longer than j, for all row-length vectors; sum(axis=0) accumulator / dtype / index dispatch; the column-sum VALUES of integer arrays (result[k] = sum of the k-th cells of the rows that have one, two inductions over the add.at accumulation, integers mathematical); get_column_values; mean(axis=0) = sum(axis=0) / col_counts() over the callee contracts (float division uninterpreted). Float / bool column-sum values are bounded.", "0, 20, 11/C09"),
     "C10": ("other", "two-state frame contracts on read-only operations + bounded differential histories",
             "Proved: 13 read-only operations on fresh receivers and 5 on lazily selected ones write no pre-existing buffer and preserve the rows; the buffer-dependence obligation on lazily selected receivers is refuted and is the recorded known finding. The history relation itself is bounded.", "0, 20, 11/C10"),
     "C11": ("other", "contracts around the bucket structure + bounded Python-dict stand-in",
@@ -43,9 +43,9 @@ CHECKS = {
     "C15": ("other", "contracts (slice window = CPython's clamped window, position lookup, sub-range extraction) + bounded numpy stand-in",
             "Proved: _get_slice hands exactly CPython's clamped window to _start_to_end for all 8 None/int kinds; _start_to_end (scalar form) returns a canonical sub-array with the dense content; _step_subset for every non-zero step of symbolic size (factored floor division, proved callee contracts of remove_empty_intervals / join_runs); _get_position; __getitem__ / _getitem_bool dispatch for every index kind. the vector form of _start_to_end (the windows behind run-length masks and rla[starts:stops]) and RunLengthRaggedArray.ravel, with the ragged operands as contract-level stand-ins (SpecRagged, audited against the real RaggedArray); and the composition for slices as a lemma over the shared contract formulas of _get_slice / _start_to_end / _step_subset: rla[a:b:s] has len(range(n)[a:b:s]) positions and position q holds the value at first + q*step, for every step. The composition for masks / windows is bounded.", "0, 20, 11/C15"),
     "C16": ("other", "contracts (operand order, boundaries kept, any/all/max) + bounded numpy stand-in",
-            "Proved: unary / scalar ufuncs keep boundaries and apply U in operand order, operands untouched; the binary merge _apply_binary_func for two arrays with unrelated boundaries (every position gets U(first, other) in operand order; argsort / searchsorted contracts, partition-point induction, proved callee contracts); any/all/max equal the dense ones; sum of integer arrays equals the sum of the decoded array (two inductions, products length * value handled by the solver's nonlinear arithmetic); concatenate. mean / histogram and float sums are bounded.", "0, 20, 11/C16"),
+            "Proved: unary / scalar ufuncs keep boundaries and apply U in operand order, operands untouched; the binary merge _apply_binary_func for two arrays with unrelated boundaries (every position gets U(first, other) in operand order; argsort / searchsorted contracts, partition-point induction, proved callee contracts); any/all/max equal the dense ones; sum of integer arrays equals the sum of the decoded array (two inductions, products length * value handled by the solver's nonlinear arithmetic); concatenate; mean = the callee's sum over the same runs divided by the decoded length, histogram = numpy's histogram of the run values weighted by the run lengths (dispatch obligations). Float sums and numpy's histogram itself are bounded / assumed.", "0, 20, 11/C16"),
     "C17": ("other", "dispatch contracts (operand order, lock-step row selection) + bounded numpy stand-in",
-            "Proved: ufunc operand order for scalar / column on either side in both classes; row selection indexes boundaries and values with the same selector; reduction / structure plumbing (which ragged reduction is applied to which operand); RunLength2dArray.join_runs (lock-step filtering, real ragged machinery); with the ragged operands as contract-level stand-ins (SpecRagged, audited): RunLengthRaggedArray.ravel, the integer-column selection rr[:, j] (two inductions), RunLengthRaggedArray.remove_empty_intervals (row by row the 1-D helper's contract; lock-step of boundaries and values; six inductions), the 2-D _step_subset for every non-zero step of symbolic size (against that contract, factored floor division), the row sums of integer arrays (sum(axis=-1) equals the sum of each decoded row), argmax (the first position of the row maximum), the window extraction behind rla[starts:stops]. Constructors, column ranges, column sums, concatenate are bounded.", "0, 20, 11/C17"),
+            "Proved: ufunc operand order for scalar / column on either side in both classes; row selection indexes boundaries and values with the same selector; reduction / structure plumbing (which ragged reduction is applied to which operand); RunLength2dArray.join_runs (lock-step filtering, real ragged machinery); with the ragged operands as contract-level stand-ins (SpecRagged, audited): RunLengthRaggedArray.ravel, the integer-column selection rr[:, j] (two inductions), RunLengthRaggedArray.remove_empty_intervals (row by row the 1-D helper's contract; lock-step of boundaries and values; six inductions), the 2-D _step_subset for every non-zero step of symbolic size (against that contract, factored floor division), the row sums of integer arrays (sum(axis=-1) equals the sum of each decoded row), argmax (the first position of the row maximum), mean (row sums divided by the decoded row lengths; column means = sum(axis=0) / col_counts() over the callee contracts), the window extraction behind rla[starts:stops]. Constructors, column ranges, column sums, concatenate are bounded.", "0, 20, 11/C17"),
     "C18": ("other", "contracts on field-wise operations with abstract fields (k = 1..3 fields unrolled, all lengths and selectors symbolic) + bounded stand-in",
             "Proved: equal-length check, __getitem__ for int / slice / index array / mask, concatenate of 2 and 3 objects, ==, astype by name, iteration, VarLenArray concatenate for 2 and 3 operands with all sizes symbolic. The number of fields / operands is concrete (unrolled), hence not claimed as proof.", "0, 20, 11/C18"),
     "C19": ("other", "re-generation of every geometry / indexing / reduction obligation under int32 (paired-word view model) + bounded differential run",
